@@ -3,9 +3,11 @@ package e3
 import (
 	"bytes"
 	"fmt"
+	"net/http/httptest"
 	"path/filepath"
 	"strings"
 	"sync"
+	"time"
 
 	"kvassverif/internal/core"
 )
@@ -176,6 +178,55 @@ func runC12Parallel(w *core.WorkerCtx, k int) *core.CaseResult {
 		}
 		wg.Wait()
 	}
+	// rendezvous: two gzip scrapes whose ResponseWriters (harness-owned) block in Header() - which the proxy calls
+	// between the request to the target and the streaming of the body - until both have got that far
+	for pair := 0; pair < 4; pair++ {
+		ha, hb := hs[(2*pair)%n], hs[(2*pair+1)%n]
+		for _, h := range []uint64{ha, hb} {
+			rg.mt.set(fmt.Sprintf("t%d.example:9100", h), &bodyScript{Body: bodies[h], Gzip: true, ContentType: "text/plain; version=0.0.4"})
+		}
+		var arrived sync.WaitGroup
+		arrived.Add(2)
+		gate := make(chan struct{})
+		var once sync.Once
+		go func() { arrived.Wait(); once.Do(func() { close(gate) }) }()
+		outs := make([]*recWriter, 2)
+		var wg sync.WaitGroup
+		for k, h := range []uint64{ha, hb} {
+			wg.Add(1)
+			go func(k int, h uint64) {
+				defer wg.Done()
+				rw := newRec(0)
+				first := true
+				rw.onHeader = func() {
+					if first {
+						first = false
+						arrived.Done()
+						select {
+						case <-gate:
+						case <-time.After(5 * time.Second): // the other scrape never got there (it failed earlier)
+						}
+					}
+				}
+				outs[k] = rw
+				func() {
+					defer func() { _ = recover() }()
+					rg.in.Proxy.ServeHTTP(rw, httptest.NewRequest("GET", proxyURLFor("j1", h), nil))
+				}()
+				if first {
+					arrived.Done()
+				}
+			}(k, h)
+		}
+		wg.Wait()
+		for k, h := range []uint64{ha, hb} {
+			res.Execs++
+			res.AddStat("rendezvous_scrapes", 1)
+			if got := outs[k].body(); !bytes.Equal(got, bodies[h]) || (outs[k].status != 0 && outs[k].status != 200) {
+				bads = append(bads, fmt.Sprintf("rendezvous pair %d target %d: status %d, got %d bytes, served %d bytes, first difference at %d", pair, h, outs[k].status, len(got), len(bodies[h]), firstDiff(got, bodies[h])))
+			}
+		}
+	}
 	res.AddStat("parallel_scrapes", int64(rounds*n))
 	if len(bads) > 0 {
 		res.Violate("C12/not-identical/concurrent-scrapes", "%d of %d concurrent scrapes differ, e.g. %s", len(bads), rounds*n, bads[0])
@@ -313,7 +364,7 @@ func init() {
 		ID:    "C12",
 		Level: "exploration",
 		Rule: "case = payload shape {empty, one line, no trailing newline, only newlines, comments/blanks, lines the statistics parser rejects (incl. binary), CRLF/unicode, generated, one line of 256 KiB-1, a newline exactly on the 64 KiB block boundary, 1 MiB, 8 MiB} x {identity, gzip} x Prometheus side {instrumented ResponseWriter with short writes of 1/7/4096 bytes, real net/http hop} x {assigned, not assigned to this shard} x chunking {every 2-way split point of the wire bytes + byte-by-byte, seed-determined random read sizes 1 B..128 KiB} x three content types; " +
-			"plus 12 cases in which 8 targets with different payloads/encodings are scraped concurrently through one proxy over a real HTTP hop, three rounds each; oracle = byte equality of what Prometheus received with the target's body after decompression, status 200, same Content-Type; runs from the -race binary (the parser calls back concurrently); " +
+			"plus 12 cases in which 8 targets with different payloads/encodings are scraped concurrently through one proxy over a real HTTP hop, three rounds each, plus four rendezvous pairs of gzip scrapes whose harness-owned ResponseWriters hold both scrapes between the request to the target and the streaming of the body; oracle = byte equality of what Prometheus received with the target's body after decompression, status 200, same Content-Type; runs from the -race binary (the parser calls back concurrently); " +
 			"non-trivial = every case; distinct = (shape, encoding, mode, assigned, short-write size, chunking)",
 		Assumptions:   []string{"targets are in-memory http.RoundTrippers installed in JobInfo.Cli; gzip bodies are produced with compress/gzip at default level"},
 		NumCases:      func(tier string) int { return len(c12Cases(tier)) + c12ParallelCases },
